@@ -502,6 +502,50 @@ func c13PlanCases(ctx *core.Ctx) {
 			}
 		}
 	}
+	// every *labelled* DAG on 3 and 4 services (all name orders of every shape: 25 + 543) × every single-root selection
+	// (thorough: every pair of roots too).  Root selection walks vertex.descendents: shared dependencies reached along
+	// several paths, in every order of the names, with the root below / beside / above the shared vertex.
+	for n := 3; n <= 4; n++ {
+		var pairs [][2]int
+		for x := 0; x < n; x++ {
+			for y := 0; y < n; y++ {
+				if x != y {
+					pairs = append(pairs, [2]int{x, y})
+				}
+			}
+		}
+		for mask := 0; mask < 1<<len(pairs); mask++ {
+			adj := make([][]int, n)
+			for i, pr := range pairs {
+				if mask&(1<<i) != 0 {
+					adj[pr[0]] = append(adj[pr[0]], pr[1])
+				}
+			}
+			if c13HasCycle(n, adj) {
+				continue
+			}
+			svcs := make([]c13Svc, n)
+			for x := range svcs {
+				svcs[x].Name = names[x]
+				for _, y := range adj[x] {
+					svcs[x].Deps = append(svcs[x].Deps, c13Dep{D: names[y], Req: true})
+				}
+			}
+			rootSets := [][]string{}
+			for x := 0; x < n; x++ {
+				rootSets = append(rootSets, []string{names[x]})
+				if ctx.Thorough() {
+					for y := x + 1; y < n; y++ {
+						rootSets = append(rootSets, []string{names[x], names[y]})
+					}
+				}
+			}
+			for k, roots := range rootSets {
+				ctx.Add("trav.plan", c13PlanArgs{Services: svcs, Reverse: (mask+k)%2 == 1, Limit: limits[(mask+k)%len(limits)], Roots: roots})
+				ctx.Count(fmt.Sprintf("plan-labelled-dag-n%d-rooted", n))
+			}
+		}
+	}
 	// seeded random: up to 5 services, mostly acyclic (edges towards earlier names) with an occasional back edge,
 	// optional / required dependencies on disabled and unknown services, random roots and limits
 	for i := 0; i < ctx.Pick(350, 6000); i++ {
@@ -556,4 +600,26 @@ func c13PlanCases(ctx *core.Ctx) {
 		ctx.Add("trav.plan", c13PlanArgs{Services: svcs, Disabled: []string{"off1", "off2"}, Reverse: ctx.Rng.Intn(2) == 0, Limit: limits[ctx.Rng.Intn(len(limits))], Roots: roots})
 		ctx.Count("plan-random-" + kind)
 	}
+}
+
+// c13HasCycle: is there a closed walk in the digraph on 0..n-1 with adjacency adj (generator side only)
+func c13HasCycle(n int, adj [][]int) bool {
+	col := make([]int, n)
+	var dfs func(v int) bool
+	dfs = func(v int) bool {
+		col[v] = 1
+		for _, w := range adj[v] {
+			if col[w] == 1 || (col[w] == 0 && dfs(w)) {
+				return true
+			}
+		}
+		col[v] = 2
+		return false
+	}
+	for v := 0; v < n; v++ {
+		if col[v] == 0 && dfs(v) {
+			return true
+		}
+	}
+	return false
 }
